@@ -252,7 +252,7 @@ func runC03(e *emitter, idx int, c *OptCase) {
 				go func() {
 					defer func() {
 						if e := recover(); e != nil {
-							pan = e
+							pan = panicInfo(e)
 							done <- solver.Result{}
 						}
 					}()
